@@ -131,8 +131,15 @@ func Value(t *rapid.T, f ref.Field, maxVar int) ref.Value {
 	case ref.TMac:
 		return ref.Value{B: BytesN(t, 6, "mac")}
 	case ref.TIPv4:
-		return ref.Value{B: addr(t, 4)}
+		b := addr(t, 4)
+		if rapid.IntRange(0, 11).Draw(t, "mapped") == 0 { // held in its 16-byte (IPv4-mapped) form
+			b = ref.CanonIP(ref.TIPv6, b)
+		}
+		return ref.Value{B: b}
 	case ref.TIPv6:
+		if rapid.IntRange(0, 11).Draw(t, "v4form") == 0 { // an IPv4 address (4 bytes) in an IPv6 element
+			return ref.Value{B: addr(t, 4)}
+		}
 		return ref.Value{B: addr(t, 16)}
 	}
 	return ref.Value{U: Bits(f.Type).Draw(t, "bits")}
